@@ -18,7 +18,7 @@ M = 4
 def gen_cases(tier, seed):
     rng = random.Random(2600 + seed)
     cases = []
-    nrand = 260 if tier == "quick" else 4000
+    nrand = 230 if tier == "quick" else 4000
     for i in range(nrand):
         n = rng.choice([1, 2, 2, 3, 3, 3, 4, 4, 5]) if i % 25 else rng.choice([7, 8, 9])
         L = rng.randint(1, 10 if n <= 5 else 6)
@@ -39,6 +39,22 @@ def gen_cases(tier, seed):
                 bidx = (rng.choice(cand), [rng.randrange(16) for _ in range(3)])
         cases.append({"n": n, "circ": circ, "prep": prep, "meas": meas, "labels": devsim.labels_for(rng, n), "batch": bidx,
                       "devwires": rng.random() < 0.7})
+    # targeted family: the state is ALREADY batched (broadcast rotation first) when each specialised kernel's gate is
+    # applied in every wire orientation (reversed CNOT / Toffoli / SWAP / CZ ..., controls after targets)
+    import itertools
+    spec = [("PauliX", 1), ("PauliZ", 1), ("Hadamard", 1), ("S", 1), ("T", 1), ("SX", 1), ("CNOT", 2), ("CZ", 2), ("SWAP", 2),
+            ("ISWAP", 2), ("CY", 2), ("Toffoli", 3), ("CSWAP", 3), ("CCZ", 3)]
+    fam = []
+    for name, ar in spec:
+        for n in (3, 4):
+            for w in itertools.permutations(range(1, n + 1), ar):
+                fam.append((name, n, list(w)))
+    rng.shuffle(fam)
+    for name, n, w in fam[:(45 if tier == "quick" else len(fam))]:
+        pre = [rec("Hadamard", [k]) for k in range(1, n + 1) if rng.random() < 0.7] + [rec("RX", [rng.randint(1, n)], [5])]
+        circ = pre + [rec("T", [rng.randint(1, n)]), rec(name, w), rec("RY", [rng.randint(1, n)], [3])]
+        cases.append({"n": n, "circ": circ, "prep": None, "meas": [("state",), ("probs", list(range(1, n + 1)))],
+                      "labels": devsim.labels_for(rng, n), "batch": (len(pre) - 1, [rng.randrange(16) for _ in range(3)]), "devwires": True})
     return cases
 
 
